@@ -10,6 +10,9 @@ import gen_contq    # noqa: F401
 import gen_l2rep    # noqa: F401
 import gen_contmut  # noqa: F401
 import gen_l2agg    # noqa: F401
+import gen_l2mut    # noqa: F401
+import gen_l2xform  # noqa: F401
+import gen_l2iter   # noqa: F401
 import gen_ser      # noqa: F401
 import gen_alias    # noqa: F401
 import gen_iter     # noqa: F401
